@@ -7,7 +7,10 @@
 use crate::datamodel::Data;
 use crate::fsm::GlobalData;
 use std::collections::HashMap;
+#[cfg(not(feature = "Verif_Hooks"))]
 use std::sync::{Arc, Mutex, MutexGuard};
+#[cfg(feature = "Verif_Hooks")]
+use {crate::verif_sync::{Mutex, MutexGuard}, std::sync::Arc};
 
 /// Trait to inject custom actions into the datamodel.
 pub trait Action: Send {
